@@ -142,7 +142,8 @@ def _expand(helper, call, caller_names, drop_self, want_value):
     new = [copy.deepcopy(s) for s in body]
     same = {p for p, v in binds if isinstance(v, ast.Name) and v.id == p}
     hl = (_locals(helper) | {p for p, v in binds}) - same - {'self'}
-    clash = {n: n + '__inl' for n in hl if n in caller_names}
+    _counter[0] += 1
+    clash = {n: '%s__i%d' % (n, _counter[0]) for n in hl}      # every expansion gets its own copies of the helper's locals
     if clash:
         new = [_Rename(clash).visit(s) for s in new]
     pre = []
@@ -262,6 +263,19 @@ def _rewrite_function(fn, helpers, names_ok, is_method, failed):
                 if isinstance(st, ast.While):
                     for c in _helper_calls(st.test, names_ok, is_method):
                         failed.add(c[0])
+            calls = [c for c in calls if c[0] not in failed]
+            # several helper calls in one statement: expand them one by one, in evaluation order, as long as each is hoistable
+            while len(calls) > 1 and all(c[2] for c in calls) and not (isinstance(st, ast.Expr) and st.value is calls[0][1]):
+                name, call, _ = calls[0]
+                helper = helpers[name]
+                drop_self = is_method and not any(isinstance(d, ast.Name) and d.id == 'staticmethod' for d in helper.decorator_list)
+                exp = _expand(helper, call, caller_names, drop_self, want_value=True)
+                if exp is None or exp[1] is None:
+                    failed.add(name)
+                    break
+                _replace(st, call, exp[1])
+                out.extend(exp[0])
+                calls = calls[1:]
             calls = [c for c in calls if c[0] not in failed]
             if len(calls) == 1 and calls[0][2]:
                 name, call, _ = calls[0]
